@@ -177,14 +177,16 @@ def gen_case(rng, i):
     if kind == "emitted":
         names = rng.sample(PNAMES, rng.randint(1, 4))
         ir = {"name": "Thing", "doc": "Thing doc", "params": {n: {"typ": rng.choice(["int", "str", "bool", "float", "Optional[int]",
-                                                                            "Literal['a', 'b']"]),
+                                                                            "Literal['a', 'b']", "Literal['sum', 'sum_over_batch_size']",
+                                                                            "Literal['cifar10', 'mnist']", "Optional[Literal['top-k', 'v1.0']]"]),
                                                            "doc": rng.choice(DESCS[:1] + ["number of things"])} for n in names},
               "returns": None}
         for n in names:
             t = ir["params"][n]["typ"]
             if rng.random() < 0.6:
                 ir["params"][n]["default"] = {"int": 5, "str": "x", "bool": True, "float": 0.5, "Optional[int]": 3,
-                                              "Literal['a', 'b']": "a"}[t]
+                                              "Literal['a', 'b']": "a", "Literal['sum', 'sum_over_batch_size']": "sum",
+                                              "Literal['cifar10', 'mnist']": "mnist", "Optional[Literal['top-k', 'v1.0']]": "v1.0"}[t]
         return {"kind": kind, "style": style, "ir": ir, "via": rng.choice(["argparse", "sqlalchemy", "sqlalchemy_table", "json_schema",
                                                                          "pydantic", "class", "function"])}
     alpha = [":param x:", ":type x:", "Args:", "Returns:", "x", " ", "\n", "    ", "*args", "**kw:", "int", "```", ":", "Parameters\n----------\n",
